@@ -31,6 +31,10 @@ import (
 )
 
 func TestMain(m *testing.M) {
+	// a Manager's goroutines (one per registered section) only look at their
+	// stop signal on this ticker: with the default second every
+	// Manager.Shutdown() of a case would take that long
+	config.ConfigSaveInterval = time.Millisecond
 	code := m.Run()
 	ev.Flush()
 	os.Exit(code)
@@ -555,6 +559,7 @@ func TestManager(t *testing.T) {
 		cons := rapid.SampledFrom([]string{"raft", "crdt"}).Draw(t, "consensus")
 		store := rapid.SampledFrom([]string{"badger", "leveldb"}).Draw(t, "datastore")
 		ch := cmdutils.NewConfigHelper("/nonexistent/verif/service.json", "/nonexistent/verif/identity.json", cons, store)
+		defer ch.Manager().Shutdown() // the Manager starts a goroutine per registered section
 		if err := ch.Manager().Default(); err != nil {
 			t.Fatal(err)
 		}
@@ -603,6 +608,7 @@ func TestManager(t *testing.T) {
 		}
 		j, _ := json.Marshal(doc)
 		ch2 := cmdutils.NewConfigHelper("/nonexistent/verif/service.json", "/nonexistent/verif/identity.json", cons, store)
+		defer ch2.Manager().Shutdown() // the Manager starts a goroutine per registered section
 		var lerr error
 		noPanic(t, "Manager.LoadJSON", func() { lerr = ch2.Manager().LoadJSON(j) })
 		if lerr != nil {
@@ -636,6 +642,7 @@ func TestManager(t *testing.T) {
 			nondefault = true
 		}
 		ch3 := cmdutils.NewConfigHelper("/nonexistent/verif/service.json", "/nonexistent/verif/identity.json", cons, store)
+		defer ch3.Manager().Shutdown() // the Manager starts a goroutine per registered section
 		if err := ch3.Manager().LoadJSON(out); err != nil {
 			t.Fatalf("the saved file is refused: %v", err)
 		}
@@ -789,6 +796,7 @@ func TestManagerEnv(t *testing.T) {
 		cons := rapid.SampledFrom([]string{"raft", "crdt"}).Draw(t, "consensus")
 		store := rapid.SampledFrom([]string{"badger", "leveldb"}).Draw(t, "datastore")
 		ch := cmdutils.NewConfigHelper("/nonexistent/verif/service.json", "/nonexistent/verif/identity.json", cons, store)
+		defer ch.Manager().Shutdown() // the Manager starts a goroutine per registered section
 		if err := ch.Manager().Default(); err != nil {
 			t.Fatal(err)
 		}
@@ -843,6 +851,7 @@ func TestManagerEnv(t *testing.T) {
 		os.Setenv(name, val)
 		defer os.Unsetenv(name)
 		ch2 := cmdutils.NewConfigHelper("/nonexistent/verif/service.json", "/nonexistent/verif/identity.json", cons, store)
+		defer ch2.Manager().Shutdown() // the Manager starts a goroutine per registered section
 		if err := ch2.Manager().LoadJSON(full); err != nil {
 			t.Fatalf("default configuration does not load: %v", err)
 		}
@@ -920,8 +929,16 @@ func TestManagerForeignSections(t *testing.T) {
 	rapid.Check(t, func(t *rapid.T) {
 		cons := rapid.SampledFrom([]string{"raft", "crdt"}).Draw(t, "consensus")
 		store := rapid.SampledFrom([]string{"badger", "leveldb"}).Draw(t, "datastore")
+		var helpers []*cmdutils.ConfigHelper
+		defer func() {
+			for _, h := range helpers {
+				h.Manager().Shutdown() // the Manager starts a goroutine per registered section
+			}
+		}()
 		mk := func(c, s string) *cmdutils.ConfigHelper {
-			return cmdutils.NewConfigHelper("/nonexistent/verif/service.json", "/nonexistent/verif/identity.json", c, s)
+			h := cmdutils.NewConfigHelper("/nonexistent/verif/service.json", "/nonexistent/verif/identity.json", c, s)
+			helpers = append(helpers, h)
+			return h
 		}
 		// the file: every section (a helper with no consensus and datastore
 		// named registers them all)
